@@ -1441,7 +1441,11 @@ fn exec(case: &ParserCase, ctx: &mut Ctx) -> Res {
                     new_flag = *eflag;
                 }
                 (Exp::Err { kind }, None, Some(e)) => {
-                    if e.kind() != *kind {
+                    // the property names one kind only: split / rsplit (and split_keep, documented to
+                    // behave like split) fail with SplitExhausted once the last piece was yielded. The
+                    // other kinds are documented on ErrorKind but not part of C14: not compared.
+                    let stated = *kind == ErrorKind::SplitExhausted && matches!(op, POp::Split { .. } | POp::Rsplit { .. } | POp::SplitKeep { .. });
+                    if stated && e.kind() != *kind {
                         return Err(ex.v("error-kind-mismatch", format!("{what}: error kind {:?}, expected {:?}", e.kind(), kind)));
                     }
                     match kind {
